@@ -76,6 +76,31 @@ def C02(tier):
                         bad = (proto, k1, k2, shared, exp, got)
             finally:
                 shutil.rmtree(d, ignore_errors=True)
+    # two rows that share a database key and differ in `raw` only (a tuple and the bytes equal to its pickle),
+    # sitting at every position relative to the 100-row pages of sorted iteration
+    bad2 = None
+    for above in (0, 1, 3, 98, 99, 100, 101, 199, 200):
+        n += 1
+        d = tempfile.mkdtemp()
+        try:
+            c = diskcache.Cache(d)
+            twin = bytes(c.disk.put((1, 2))[0])
+            stored = [(1, 2), twin, 5, 6, 'a', 'b']
+            # blobs sorting above the pair (longer common prefix does not matter: compare bytewise)
+            stored += [twin + bytes([255]) + str(i).zfill(4).encode() for i in range(above)]
+            for k in stored:
+                c[k] = 1
+            fwd = list(c.iterkeys())
+            rev = list(c.iterkeys(reverse=True))
+            ok = len(fwd) == len(stored) and len(rev) == len(stored) and [repr(x) for x in rev] == [repr(x) for x in reversed(fwd)] \
+                and sorted(map(repr, fwd)) == sorted(map(repr, stored))
+            if not ok and bad2 is None:
+                bad2 = '%d keys above the twin pair: iterkeys() gave %d keys, iterkeys(reverse=True) %d, stored %d; reverse is the mirror image: %s' % (
+                    above, len(fwd), len(rev), len(stored), [repr(x) for x in rev] == [repr(x) for x in reversed(fwd)])
+        finally:
+            shutil.rmtree(d, ignore_errors=True)
+    out.append(result('C02.standin.twin_keys_in_sorted_iteration', bad2 is None,
+                      'a tuple key and its bytes twin with 0..200 keys above them, both directions of iterkeys', 9, bad2))
     out.append(result('C02.standin.alias_and_iteration', bad is None,
                       'all ordered pairs of %d corpus keys x pickle protocols, Disk' % (len(KEYS) + 1), n,
                       None if bad is None else 'protocol %r: keys %r and %r: shared=%r expected=%r iteration=%r' % bad,
@@ -1141,6 +1166,11 @@ def C17(tier):
         for combo in combos:
             cases += 1
             d = tempfile.mkdtemp()
+            if cases % 2:
+                # the same directory under a spelling that is not normalised
+                os.makedirs(os.path.join(d, 'releases'))
+                os.makedirs(os.path.join(d, 'cache'))
+                d = os.path.join(d, 'releases', '..', 'cache')
             try:
                 if kind == 'Cache':
                     c = diskcache.Cache(d, disk_min_file_size=64)
@@ -1233,7 +1263,7 @@ def C17(tier):
                 bad = '%s %r raised %r %s' % (kind, combo, e, traceback.format_exc()[-300:])
                 break
             finally:
-                shutil.rmtree(d, ignore_errors=True)
+                shutil.rmtree(d.split('/releases/..')[0], ignore_errors=True)
         if bad:
             break
     return [result('C17.standin.damage_combinations', bad is None,
@@ -1877,6 +1907,46 @@ def C18(tier):
                 bad = bad or 'JSONDisk created with compress_level=6, %s: compress_level %r, item visible: %r' % (
                     how, h.disk.compress_level, 'alpha' in h)
             h.close()
+        # a handle opened while another connection briefly holds the database exclusively: it waits (the
+        # holder goes away at the first back-off) and comes up with the stored settings, not with defaults
+        import sqlite3
+        import time as _time
+        k = diskcache.Cache(d + '/k', size_limit=7654321, cull_limit=3, eviction_policy='none')
+        k.set('kept', 1)
+        k.close()
+        holder = sqlite3.connect(os.path.join(d, 'k', 'cache.db'), isolation_level=None, timeout=0)
+        holder.execute('PRAGMA locking_mode = EXCLUSIVE').fetchall()
+        holder.execute('BEGIN IMMEDIATE')
+        holder.execute('UPDATE Settings SET value = value WHERE key = "size_limit"')
+        holder.execute('COMMIT')
+        state = {'holder': holder, 'sleeps': 0, 'now': 1e6}
+        real_sleep, real_time = _time.sleep, _time.time
+
+        def fake_sleep(_):
+            state['sleeps'] += 1
+            if state['holder'] is not None:
+                state['holder'].close()
+                state['holder'] = None
+
+        def fake_time():
+            state['now'] += 0.001
+            return state['now']
+        _time.sleep, _time.time = fake_sleep, fake_time
+        try:
+            h = diskcache.Cache(d + '/k')
+        finally:
+            _time.sleep, _time.time = real_sleep, real_time
+            if state['holder'] is not None:
+                state['holder'].close()
+        cases += 1
+        if state['sleeps'] and ((h.size_limit, h.cull_limit, h.eviction_policy) != (7654321, 3, 'none') or h.get('kept') != 1):
+            bad = bad or 'a handle opened while the database was briefly locked came up with size_limit=%r cull_limit=%r policy=%r (created with 7654321, 3, none)' % (
+                h.size_limit, h.cull_limit, h.eviction_policy)
+        h.close()
+        h2 = diskcache.Cache(d + '/k')
+        if (h2.size_limit, h2.cull_limit, h2.eviction_policy) != (7654321, 3, 'none'):
+            bad = bad or 'after a contended open the stored settings are %r' % ((h2.size_limit, h2.cull_limit, h2.eviction_policy),)
+        h2.close()
         f = diskcache.FanoutCache(d + '/f', shards=3, cull_limit=7)
         f.set('a', 1)
         g = pickle.loads(pickle.dumps(f))
